@@ -2,7 +2,7 @@
 """tools/save_seed.py <Cxx> <a|b> <demo dest path> "<demo cmd>" "<caught by>" "<initially missed by / strengthening>" """
 import sys, os, shutil, json, re
 prop, var, dest, cmd, caught, missed = sys.argv[1:7]
-src = f"/tmp/seed-{prop}/OUT/{var}"
+src = f"/tmp/{os.environ.get('SEED_BASE', 'seed')}-{prop}/OUT/{var}"
 dst = f"/verif/seeded/{prop}{var}"
 os.makedirs(dst, exist_ok=True)
 for f in ("patch.diff", "demo.rs", "README.md"):
